@@ -120,6 +120,64 @@ def drv_tokens(c, ctx, col):
 
 
 # ---------------------------------------------------------------------------
+# the shunting-yard machine itself: distinct (operator stack, output queue) states reached
+
+def drv_parser_states(c, ctx, col):
+    """Observe the real parser's internal state after every token through a token generator handed to tokens_to_ast
+    (the generator reads the caller's frame).  Used to count the distinct states / transitions of the shunting-yard
+    machine that the token enumeration drives it through, and to check two machine invariants on every step."""
+    import sys
+    from formulaic.parser.algos.tokens_to_ast import tokens_to_ast
+    from formulaic.errors import FormulaParsingError
+    from props.common import parser_for
+    tokens = c.seq(ctx["sigma"], ctx["L"])
+    icpt = not c.flag()
+    s = " ".join(tokens)
+    parser = parser_for(icpt, FLAG_SETS[0])
+    try:
+        toks = list(parser.get_tokens(s))
+    except FormulaParsingError:
+        col.count("tokenizer-rejected")
+        return
+    except Exception:
+        col.count("tokenizer-escaped")  # C14's subject
+        return
+    prev = [("", 0)]
+    bad = []
+
+    def snap(frame):
+        loc = frame.f_locals
+        st = tuple(getattr(o.operator, "symbol", None) or str(o.token) for o in loc.get("operator_stack", []))
+        q = len(loc.get("output_queue", []))
+        return (st, q)
+
+    def gen():
+        for t in toks:
+            yield t
+            cur = snap(sys._getframe(1))
+            col.state(repr(cur))
+            col.count("machine-transitions")
+            # invariant: operands recorded by stacked operators never exceed the queue
+            loc = sys._getframe(1).f_locals
+            for o in loc.get("operator_stack", []):
+                if o.index > len(loc.get("output_queue", [])):
+                    bad.append((str(t), cur))
+            prev[0] = cur
+
+    try:
+        ast_ = tokens_to_ast(gen(), parser.operator_resolver)
+    except FormulaParsingError:
+        col.count("rejected")
+    except Exception:
+        col.count("escaped")  # C14's subject
+    else:
+        col.interesting()
+    if bad:
+        col.violation("parser-state :: %r icpt=%s" % (s, icpt), {"formula": s, "bad": bad}, sig="operator-index-beyond-queue")
+    col.sample({"formula": s, "final_state": prev[0]})
+
+
+# ---------------------------------------------------------------------------
 # grammar-generated sentences
 
 BIN = ["+", "-", ":", "*", "/", "%in%", "**"]
@@ -407,6 +465,8 @@ def subchecks(tier, seed):
                                 "note": "VERIF_SEED-selected exhaustive slice of the thorough scope"}))
         subs.append(Sub("tokens-operand-kinds", drv_tokens, {"sigma": SIGMA_K, "L": 4}, shard_depth=3,
                         bounds={"alphabet": SIGMA_K, "max_tokens": 4}))
+        subs.append(Sub("parser-states", drv_parser_states, {"sigma": SIGMA_Q, "L": 3}, shard_depth=2,
+                        bounds={"alphabet": SIGMA_Q, "max_tokens": 3, "observed": "operator stack symbols + output queue length after every token"}))
         subs.append(Sub("sentences", drv_sentences, {"k": 2, "kmin": 0, "leaves": ["a", "b", "c", "1", "0"], "powers": ["2"]},
                         shard_depth=3, bounds={"max_binary_operators": 2, "leaves": ["a", "b", "c", "1", "0"]}))
         subs.append(Sub("sentences-3", drv_sentences, {"k": 3, "kmin": 3, "leaves": ["a", "b"], "powers": ["2"]},
@@ -422,6 +482,8 @@ def subchecks(tier, seed):
                         bounds={"alphabet": SIGMA_T, "max_tokens": 4}))
         subs.append(Sub("tokens-operand-kinds", drv_tokens, {"sigma": SIGMA_K + ["|", "/", "**", "2"], "L": 5}, shard_depth=3,
                         bounds={"alphabet": SIGMA_K + ["|", "/", "**", "2"], "max_tokens": 5}))
+        subs.append(Sub("parser-states", drv_parser_states, {"sigma": SIGMA_Q, "L": 4}, shard_depth=2,
+                        bounds={"alphabet": SIGMA_Q, "max_tokens": 4, "observed": "operator stack symbols + output queue length after every token"}))
         subs.append(Sub("tokens-5", drv_tokens, {"sigma": SIGMA_Q, "L": 5, "Lmin": 5}, shard_depth=3,
                         bounds={"alphabet": SIGMA_Q, "tokens": 5}))
         subs.append(Sub("sentences", drv_sentences, {"k": 3, "kmin": 0, "leaves": ["a", "b", "c", "1", "0"], "powers": ["2", "3"]},
